@@ -114,6 +114,22 @@ impl BoundaryIntent {
         }
     }
 
+    /// The entity presented right after the boundary.
+    fn following(self) -> Option<EntityId> {
+        match self {
+            | Self::Canonical => None,
+            | Self::Preserve(boundary) | Self::PreserveBlankLine(boundary) => match boundary {
+                | LayoutBoundary::Between { after, .. } => Some(after),
+                | LayoutBoundary::AfterStart { first, .. } => Some(first),
+                | LayoutBoundary::AfterArmPrefix { payload } => Some(payload),
+                | LayoutBoundary::BeforeExistentialParameter { parameter, .. } => {
+                    Some(parameter.into())
+                }
+                | LayoutBoundary::BeforeEnd { .. } => None,
+            },
+        }
+    }
+
     fn resolve(self, arena: &TextArena) -> Option<BreakIntent> {
         match self {
             | Self::Canonical => None,
@@ -415,7 +431,20 @@ impl<'arena> PrettyFormatter<'arena> {
     ) -> RcDoc<'arena> {
         comments
             .iter()
-            .fold(RcDoc::nil(), |prefix, comment| {
+            .enumerate()
+            .fold(RcDoc::nil(), |prefix, (index, comment)| {
+                // A text block starts a line of its own: the comment in front of one ends its
+                // line instead of leaving a separator before the break.
+                let text_block_follows = comments
+                    .get(index + 1)
+                    .is_some_and(|next| next.comment().as_text().is_some());
+                let separation = if text_block_follows
+                    && comment.separation_after() == LineSeparation::SameLine
+                {
+                    LineSeparation::NextLine
+                } else {
+                    comment.separation_after()
+                };
                 prefix
                     .append(if comment.comment().as_text().is_some() {
                         self.ensure_line_start()
@@ -423,7 +452,7 @@ impl<'arena> PrettyFormatter<'arena> {
                         RcDoc::nil()
                     })
                     .append(self.comment(comment.comment()))
-                    .append(self.line_separation(comment.separation_after()))
+                    .append(self.line_separation(separation))
             })
             .append(document)
     }
@@ -557,6 +586,18 @@ impl<'arena> PrettyFormatter<'arena> {
         let intention = intent.resolve(self.arena);
         if self.preserves_blank_line(intention) {
             return BoundaryPlacement::BlankLine;
+        }
+        // A text block starts a line of its own, so the boundary in front of one is broken
+        // wherever the source has it.
+        let text_block_follows = intent.following().is_some_and(|entity| {
+            self.arena
+                .trivia
+                .leading_comments(entity)
+                .first()
+                .is_some_and(|comment| comment.comment().as_text().is_some())
+        });
+        if text_block_follows {
+            return BoundaryPlacement::Broken;
         }
         if self.forces_break(intention) {
             return BoundaryPlacement::Broken;
